@@ -8,7 +8,6 @@ import (
 	"context"
 	"encoding/json"
 	"fmt"
-	"html"
 	"io"
 	"strings"
 	"testing"
@@ -89,7 +88,7 @@ func expectedSource(c Case) string {
 	s := c.Source
 	for name, v := range c.Data {
 		str := fmt.Sprint(v.Go())
-		esc := html.EscapeString(str)
+		esc := xhtml.EscapeString(str) // x/net: also spells CR as &#13; (a raw CR would be normalised to LF)
 		if attr, ok := c.Bound[name]; ok {
 			s = strings.ReplaceAll(s, ` :`+attr+`="`+name+`"`, ` `+attr+`="`+esc+`"`)
 			s = strings.ReplaceAll(s, ` v-bind:`+attr+`="`+name+`"`, ` `+attr+`="`+esc+`"`)
@@ -174,6 +173,10 @@ func check(c Case) error {
 
 // ---------------------------------------------------------------- generator
 
+// attrAtoms: additionally, control characters that only matter inside attribute values (text is
+// compared with whitespace collapsed).
+var attrAtoms = []string{"line one\r\nline two", "a\rb", "x\ny", "t\tu", "\r\n"}
+
 var textAtoms = []string{"a", "b c", "x", "1 < 2", "&", "<", ">", `"`, "'", ";", "&amp;", "&lt;", "&#38;", "&nbsp;", "&amp;amp;", " ", "é", "a & b;", "x;y", "&lt;b&gt;", "</p>", "&#", "& ", "&x;", "tom&jerry", "-->", "<!--", "1 &lt; 2 &amp; 3;"}
 
 type gctx struct {
@@ -199,11 +202,28 @@ func (g *gctx) decoded(label string) string {
 	return sb.String()
 }
 
+// decodedAttr is decoded() for attribute values: sometimes with a CR / LF / TAB inside.
+func (g *gctx) decodedAttr(label string) string {
+	s := g.decoded(label)
+	if rapid.IntRange(0, 4).Draw(g.t, label+"ctl") == 0 {
+		s = "k" + s + rapid.SampledFrom(attrAtoms).Draw(g.t, label+"ctlv") + "z"
+	}
+	return s
+}
+
 // escText spells decoded text as template source, choosing among equivalent spellings.
 func (g *gctx) escText(s string, attr bool) string {
 	var sb strings.Builder
 	for _, r := range s {
 		switch r {
+		case '\r':
+			// a literal CR in the source is normalised to LF by the tokenizer: only the
+			// character reference spells a CR
+			sb.WriteString(g.pick("cr", "&#13;", "&#xD;"))
+		case '\n':
+			sb.WriteString(g.pick("lf", "\n", "&#10;"))
+		case '\t':
+			sb.WriteString(g.pick("tab", "\t", "&#9;"))
 		case '&':
 			sb.WriteString(g.pick("amp", "&amp;", "&#38;", "&#x26;", "&amp;"))
 		case '<':
@@ -245,7 +265,7 @@ func (g *gctx) scalar() vals.V {
 	case 3:
 		return vals.Bool(true)
 	default:
-		return vals.Str(rapid.SampledFrom([]string{"<script>alert(1)</script>", `"><img src=x>`, "a&b", "&lt;", "{{ x }}", "plain", "it's"}).Draw(g.t, "hs"))
+		return vals.Str(rapid.SampledFrom([]string{"<script>alert(1)</script>", `"><img src=x>`, "a&b", "&lt;", "{{ x }}", "plain", "it's", "line one\r\nline two", "a\rb", "tab\there"}).Draw(g.t, "hs"))
 	}
 }
 
@@ -293,10 +313,10 @@ func (g *gctx) attrs() string {
 					continue
 				}
 			}
-			sb.WriteString(" " + name + `="` + g.escText(g.decoded("aL"), true) + "{{ " + h + " }}" + `"`)
+			sb.WriteString(" " + name + `="` + g.escText(g.decodedAttr("aL"), true) + "{{ " + h + " }}" + `"`)
 			continue
 		}
-		sb.WriteString(" " + name + `="` + g.escText(g.decoded("av"), true) + `"`)
+		sb.WriteString(" " + name + `="` + g.escText(g.decodedAttr("av"), true) + `"`)
 	}
 	return sb.String()
 }
@@ -321,10 +341,10 @@ func (g *gctx) inline(depth int) string {
 		tag := rapid.SampledFrom(v).Draw(g.t, "void")
 		extra := ""
 		if tag == "img" {
-			extra = ` src="` + g.escText(g.pick("src", "a.png", "/i?a=1&b=2", "x y.png"), true) + `" alt="` + g.escText(g.decoded("alt"), true) + `"`
+			extra = ` src="` + g.escText(g.pick("src", "a.png", "/i?a=1&b=2", "x y.png"), true) + `" alt="` + g.escText(g.decodedAttr("alt"), true) + `"`
 		}
 		if tag == "input" {
-			extra = ` value="` + g.escText(g.decoded("val"), true) + `"` + g.pick("dis", "", " disabled", ` type="text"`)
+			extra = ` value="` + g.escText(g.decodedAttr("val"), true) + `"` + g.pick("dis", "", " disabled", ` type="text"`)
 		}
 		return "<" + tag + extra + ">"
 	default:
@@ -403,7 +423,17 @@ func (g *gctx) block(depth int) string {
 		return "<hr" + g.attrs() + ">"
 	case 7:
 		// raw text / RCDATA / pre: a single text child
-		switch g.pick("raw", "pre", "textarea", "script", "style") {
+		switch g.pick("raw", "pre", "textarea", "script", "style", "xmp", "rawish", "noscript") {
+		case "xmp":
+			// raw text that is shown: character references are not decoded, markup is text
+			return "<xmp>" + g.pick("xmp", "<b>bold</b> &amp; x", "a < b && c > d", "  two  spaces &lt;", `<img src="x.png">`, "plain") + "</xmp>"
+		case "rawish":
+			// raw text elements whose body is fallback content
+			tag := g.pick("rawtag", "iframe", "noembed", "noframes")
+			return "<" + tag + ">" + g.pick("rawbody", "<p>fallback &amp; more</p>", `<a href="/x?a=1&b=2">link</a>`, "a < b", "plain", "&lt;") + "</" + tag + ">"
+		case "noscript":
+			// markup when scripting is off (how hx parses): fallback elements inside
+			return "<noscript>" + g.inline(depth-1) + g.pick("nsx", "", `<img src="p.gif?a=1&amp;b=2" alt="">`, "<p>no js</p>") + "</noscript>"
 		case "pre":
 			return "<pre>" + g.pick("pre", "a  b", "  indented\n    more", "x &lt; y", "line1\nline2", "tab\there") + "</pre>"
 		case "textarea":
@@ -445,7 +475,11 @@ func genCase(withHoles bool) func(t *rapid.T) Case {
 			body += `<div v-html="` + h + `"></div>`
 		}
 		if c.Doc {
-			dt := rapid.SampledFrom([]string{"<!DOCTYPE html>", "<!doctype html>", "", "<!DOCTYPE html>\n"}).Draw(t, "doctype")
+			dt := rapid.SampledFrom([]string{"<!DOCTYPE html>", "<!doctype html>", "", "<!DOCTYPE html>\n",
+				`<!DOCTYPE html PUBLIC "-//W3C//DTD XHTML 1.0 Strict//EN" "http://www.w3.org/TR/xhtml1/DTD/xhtml1-strict.dtd">`,
+				`<!DOCTYPE HTML PUBLIC "-//W3C//DTD HTML 4.01 Transitional//EN">`,
+				`<!DOCTYPE html SYSTEM "about:legacy-compat">`,
+				`<!DOCTYPE html PUBLIC "-//W3C//DTD HTML 4.01//EN" "http://www.w3.org/TR/html4/strict.dtd">`}).Draw(t, "doctype")
 			head := "<head><title>" + g.escText(g.decoded("title"), false) + "</title>" + rapid.SampledFrom([]string{"", `<meta charset="utf-8">`, `<link rel="stylesheet" href="/a.css?x=1&amp;y=2">`, `<meta name="d" content="a &amp; b">`}).Draw(t, "headx") + "</head>"
 			c.Source = dt + `<html lang="en">` + head + "<body" + g.attrs() + ">" + body + "</body></html>"
 			c.Entry = rapid.SampledFrom(entriesDoc).Draw(t, "entry")
@@ -477,6 +511,10 @@ func classify(c Case) (bool, []string) {
 	mark(strings.Contains(s, "<table"), "table")
 	mark(c.Doc, "document")
 	mark(strings.Contains(strings.ToLower(s), "<!doctype"), "doctype")
+	mark(strings.Contains(s, " PUBLIC ") || strings.Contains(s, " SYSTEM "), "legacy-doctype")
+	mark(strings.Contains(s, "<xmp") || strings.Contains(s, "<iframe") || strings.Contains(s, "<noembed") || strings.Contains(s, "<noframes"), "rawtext-fallback-element")
+	mark(strings.Contains(s, "<noscript"), "noscript")
+	mark(strings.Contains(s, "&#13;") || strings.Contains(s, "&#xD;") || strings.Contains(s, "&#10;") || strings.Contains(s, "&#9;"), "control-char-reference")
 	mark(len(c.Data) > 0, "interpolated")
 	mark(len(c.Bound) > 0, "bound-attr")
 	mark(len(c.VHtml) > 0, "v-html")
@@ -508,6 +546,10 @@ var corpus = []Case{
    this</pre><textarea name="t">a  b</textarea>`, Entry: "string"},
 	{Source: `<script>if (a<b && c>d) { s = "&amp;"; }</script><style>a > b { content: "<" }</style>`, Entry: "string"},
 	{Source: `<a href="/q?a=1&amp;b=2&amp;copy=3">x</a>`, Entry: "string"},
+	{Source: `<noscript><img src="x.png" alt=""><p>enable &amp; reload</p></noscript><xmp><b>bold</b> &amp; x</xmp><iframe src="/f"><p>fallback</p></iframe>`, Entry: "string"},
+	{Source: `<input placeholder="line one&#13;&#10;line &quot;two&quot;" title="a&#9;b"><p title="v: {{ h1 }}">x</p>`, Entry: "string", Data: map[string]vals.V{"h1": vals.Str("one\r\ntwo")}},
+	{Source: `<!DOCTYPE html PUBLIC "-//W3C//DTD XHTML 1.0 Strict//EN" "http://www.w3.org/TR/xhtml1/DTD/xhtml1-strict.dtd"><html><head><title>t</title></head><body><p>x</p></body></html>`, Doc: true, Entry: "load"},
+	{Source: `<!DOCTYPE html SYSTEM "about:legacy-compat"><html><head><title>t</title><noscript><link rel="stylesheet" href="/n.css"></noscript></head><body><p>x</p></body></html>`, Doc: true, Entry: "vue"},
 	{Source: `<p title="[{{ h1 }}]" :lang="h1">v={{ h1 }};</p>`, Entry: "string", Data: map[string]vals.V{"h1": vals.Num("float64", "1e6")}, Bound: map[string]string{"h1": "lang"}},
 	{Source: `<p title="[{{ h1 }}]" :lang="h1">v={{ h1 }};</p>`, Entry: "string", Data: map[string]vals.V{"h1": vals.Num("float64", "0.00001")}, Bound: map[string]string{"h1": "lang"}},
 	{Source: `<p title="[{{ h1 }}]" :lang="h1">v={{ h1 }};</p>`, Entry: "string", Data: map[string]vals.V{"h1": vals.Num("float32", "16777216")}, Bound: map[string]string{"h1": "lang"}},
